@@ -274,6 +274,20 @@ impl<'tcx> Cx<'tcx> {
         Some(out)
     }
 
+    /// A `&[u8]` / `&str` fat pointer stored at (alloc_id, off): the bytes it points to.
+    fn fat_bytes(&self, alloc_id: mir::interpret::AllocId, off: u64) -> Option<Vec<u8>> {
+        use mir::interpret::GlobalAlloc;
+        let GlobalAlloc::Memory(a) = self.tcx.try_get_global_alloc(alloc_id)? else { return None };
+        let a = a.inner();
+        if off + 16 > a.size().bytes() { return None; }
+        let b = a.inspect_with_uninit_and_ptr_outside_interpreter(off as usize..off as usize + 16);
+        let inner_off = u64::from_le_bytes(b[0..8].try_into().ok()?);
+        let len = u64::from_le_bytes(b[8..16].try_into().ok()?);
+        if len > 4096 { return None; }
+        let prov = a.provenance().ptrs().get(&rustc_abi::Size::from_bytes(off))?;
+        self.read_bytes(prov.alloc_id(), inner_off, len)
+    }
+
     /// `n` consecutive `&str` fat pointers stored inline at (alloc_id, off).
     fn str_array(&self, alloc_id: mir::interpret::AllocId, off: u64, n: u64) -> Option<Vec<String>> {
         use mir::interpret::GlobalAlloc;
@@ -359,6 +373,19 @@ impl<'tcx> Cx<'tcx> {
                                     return obj! {"strs" => J::A(v.into_iter().map(s).collect()), "indirect" => J::B(true)};
                                 }
                             }
+                        }
+                    }
+                }
+                if let ty::Ref(_, inner, _) = t.kind() {
+                    // a named `const X: &[u8] = b"..";` / `&str`: the value is a fat pointer in memory, report the pointee bytes
+                    let is_bytes = match inner.kind() {
+                        ty::Str => true,
+                        ty::Slice(e) => matches!(e.kind(), ty::Uint(ty::UintTy::U8)),
+                        _ => false,
+                    };
+                    if is_bytes {
+                        if let Some(b) = self.fat_bytes(alloc_id, offset.bytes()) {
+                            return obj! {"bytes" => J::A(b.iter().map(|x| i(*x)).collect()), "indirect" => J::B(true)};
                         }
                     }
                 }
